@@ -151,20 +151,21 @@ func viol(oracle, format string, a ...any) *Violation {
 }
 
 type World struct {
-	Cfg    Cfg
-	Base   corestore.KVStoreWithBatch // the physical store
-	VS     *vstore.Store              // == Base when Backend is vstore
-	DB     corestore.KVStoreWithBatch // what iavl sees (PrefixDB wraps Base)
-	Tree   *iavl.MutableTree
-	M      *Model
-	tmp    string // temp dir of a leveldb backend
-	exps   map[int64][]*iavl.Exporter
-	Dead   bool // a panic / unrecoverable error happened in the instance
-	NMaint int
-	NReads int
-	Strict bool
-	LastOp Op
-	LastOK bool // the last operation was expected to succeed (model)
+	Cfg            Cfg
+	Base           corestore.KVStoreWithBatch // the physical store
+	VS             *vstore.Store              // == Base when Backend is vstore
+	DB             corestore.KVStoreWithBatch // what iavl sees (PrefixDB wraps Base)
+	Tree           *iavl.MutableTree
+	M              *Model
+	tmp            string // temp dir of a leveldb backend
+	exps           map[int64][]*iavl.Exporter
+	Dead           bool // a panic / unrecoverable error happened in the instance
+	NMaint         int
+	NReads         int
+	Strict         bool
+	LastOp         Op
+	UnboundedReads bool
+	LastOK         bool // the last operation was expected to succeed (model)
 }
 
 func newStore(backend string) (corestore.KVStoreWithBatch, corestore.KVStoreWithBatch, *vstore.Store, string) {
@@ -287,7 +288,7 @@ func (w *World) Apply(op Op) *Violation {
 	if isMaint(op.Kind) {
 		w.NMaint++
 	}
-	if op.Kind == OpRead && op.Arg != 12 {
+	if op.Kind == OpRead && op.Arg != 12 && !w.UnboundedReads {
 		w.NReads++
 	}
 	w.LastOp = op
